@@ -136,6 +136,90 @@ fn backward<const N: usize>() {
     core::mem::forget(t);
 }
 
+/// searches after a short history of overlapping range modifications (the second lands strictly inside a node that still
+/// carries the first): results must be unaffected by what is still pending
+fn after_history<const N: usize>(rev: bool) {
+    let mut model = [0u8; N];
+    let mut t = build::<N>(&mut model);
+    let m1 = any_md();
+    let m2 = any_md();
+    t.modify(0, N - 1, &m1);
+    let mut i = 0;
+    while i < N {
+        model[i] = m1.apply1(model[i]);
+        i += 1;
+    }
+    let p = N / 2;
+    t.modify(p, p, &m2);
+    model[p] = m2.apply1(model[p]);
+    let kind: u8 = kani::any();
+    let k: u8 = kani::any();
+    let c: u8 = kani::any();
+    kani::assume(kind < 2 && k <= 9 && c < 16);
+    let m = model;
+    if !rev {
+        let got = t.lower_bound(0, |s: &Seq| {
+            let mut i = 0;
+            while i < N {
+                if i < s.len as usize {
+                    assert!(nib(s.v, i) == m[i], "forward search after a history: aggregate = in-order merge of [0, len)");
+                }
+                i += 1;
+            }
+            pred_item(kind, k, c, s)
+        });
+        let mut exp: Option<usize> = None;
+        let mut r = N;
+        while r > 0 {
+            r -= 1;
+            if pred_model(kind, k, c, &m, r + 1) {
+                exp = Some(r);
+            }
+        }
+        assert!(got == exp, "forward search after a history of overlapping modifications");
+    } else {
+        let got = t.lower_bound_rev(N - 1, |s: &Seq| {
+            let start = N - s.len as usize;
+            let mut i = 0;
+            while i < N {
+                if i < s.len as usize {
+                    assert!(nib(s.v, i) == m[start + i], "backward search after a history: aggregate = in-order merge of (n-len, n-1]");
+                }
+                i += 1;
+            }
+            pred_item(kind, k, c, s)
+        });
+        let mut exp: Option<usize> = None;
+        let mut l = 0;
+        while l < N {
+            let mut letters = [0u8; N];
+            let mut i = 0;
+            while i < N {
+                if l + i < N {
+                    letters[i] = m[l + i];
+                }
+                i += 1;
+            }
+            if pred_model(kind, k, c, &letters, N - l) {
+                exp = Some(l);
+            }
+            l += 1;
+        }
+        assert!(got == exp, "backward search after a history of overlapping modifications");
+    }
+    check_state::<N>(&t, &model);
+    core::mem::forget(t);
+}
+#[kani::proof]
+#[kani::unwind(34)]
+fn c02_hist_fwd_n4() { after_history::<4>(false); }
+#[kani::proof]
+#[kani::unwind(34)]
+fn c02_hist_bwd_n4() { after_history::<4>(true); }
+#[kani::proof]
+#[kani::unwind(34)]
+fn c02_hist_fwd_n5() { after_history::<5>(false); }
+
 macro_rules! per_n {
     ($n:expr, $f:ident, $b:ident) => {
         #[kani::proof]
